@@ -619,4 +619,93 @@ def rule_stop_tasks_reentrant(ctx):
 
 
 
-RULES = [('C17.a', rule_a), ('C17.b', rule_b), ('C17.c', rule_c), ('C17.d', rule_d), ('C17.e', rule_e), ('C17.f', rule_f), ('C17.b+C11.a+C11.g', rule_plumbing), ('C17.g', rule_g), ('C14.e', rule_lease_per_connection), ('C17.h', rule_stop_tasks_reentrant)]
+
+def rule_provider_iterated_once(ctx):
+    """C17.i  Each connection takes the *next* transport of the provider.  The constructor turns the provider into an
+    iterator once (`provider.__aiter__()` / `aiter(provider)`) and keeps it; `_get_new_transport` takes exactly one
+    step of that kept iterator (`__anext__()` / `anext()`), hands back what the step produced, and nothing else stores
+    the attribute.  An `async for` over the attribute, or a second `__aiter__()`, starts a re-iterable provider (a
+    fail-over list of endpoints) from its first transport on every reconnect - the endpoint that has just failed."""
+    rep = ctx.report
+    C = ctx.slots.RSocketClient
+    g = C.lookup('_get_new_transport')
+    init = C.methods.get('__init__')
+    if g is None or init is None:
+        raise AnalysisError('C17.i: RSocketClient._get_new_transport / __init__ vanished')
+
+    def self_attr(e):
+        return e.attr if isinstance(e, ast.Attribute) and isinstance(e.value, ast.Name) and e.value.id == 'self' \
+            else None
+
+    def step_of(e):
+        """attr when e is self.<attr>.__anext__() or anext(self.<attr>)"""
+        if isinstance(e, ast.Call) and isinstance(e.func, ast.Attribute) and e.func.attr == '__anext__':
+            return self_attr(e.func.value)
+        if isinstance(e, ast.Call) and isinstance(e.func, ast.Name) and e.func.id == 'anext' and e.args:
+            return self_attr(e.args[0])
+        return None
+
+    steps = [(n, step_of(n)) for n in walk_local(g.node) if isinstance(n, ast.Call) and step_of(n)]
+    loops = [n for n in walk_local(g.node) if isinstance(n, (ast.AsyncFor, ast.For))]
+    again = [n for n in walk_local(g.node) if isinstance(n, ast.Call) and (
+        (isinstance(n.func, ast.Attribute) and n.func.attr == '__aiter__') or
+        (isinstance(n.func, ast.Name) and n.func.id == 'aiter'))]
+    ok, why = True, ''
+    attr = steps[0][1] if steps else None
+    if loops or again:
+        ok, why = False, ('line %d: the provider is iterated from its start on every call (%s): a re-iterable provider '
+                          'hands out its first transport again' % ((loops or again)[0].lineno,
+                                                                   'async for' if loops else '__aiter__()'))
+    elif len(steps) != 1:
+        ok, why = False, '_get_new_transport takes %d steps of the provider, not one' % len(steps)
+    else:
+        call = steps[0][0]
+        local = {}
+        for n in walk_local(g.node):
+            if isinstance(n, ast.Assign) and len(n.targets) == 1 and isinstance(n.targets[0], ast.Name):
+                local.setdefault(n.targets[0].id, []).append(n.value)
+        rets = [n for n in walk_local(g.node) if isinstance(n, ast.Return)]
+        produced = 0
+        for r in rets:
+            v = r.value
+            if isinstance(v, ast.Name) and len(local.get(v.id, [])) == 1:
+                v = local[v.id][0]
+            if isinstance(v, ast.Await):
+                v = v.value
+            if v is call:
+                produced += 1
+            elif not (v is None or (isinstance(v, ast.Constant) and v.value is None)):
+                ok, why = False, 'line %d: returns %s, not what the provider produced' % (r.lineno, ast.unparse(r.value))
+        if ok and not produced:
+            ok, why = False, 'what the provider produced is not returned'
+    if ok:
+        stores = []
+        for k in C.mro():
+            for f in k.methods.values():
+                for n in walk_local(f.node):
+                    if isinstance(n, (ast.Assign, ast.AnnAssign, ast.AugAssign)):
+                        ts = n.targets if isinstance(n, ast.Assign) else [n.target]
+                        for t in ts:
+                            if self_attr(t) == attr:
+                                stores.append((f, n))
+        params = set(init.params())
+        for f, n in stores:
+            v = getattr(n, 'value', None)
+            good = f is init and isinstance(v, ast.Call) and (
+                (isinstance(v.func, ast.Attribute) and v.func.attr == '__aiter__' and
+                 isinstance(v.func.value, ast.Name) and v.func.value.id in params) or
+                (isinstance(v.func, ast.Name) and v.func.id == 'aiter' and v.args and
+                 isinstance(v.args[0], ast.Name) and v.args[0].id in params))
+            if not good:
+                ok, why = False, ('%s line %d: self.%s = %s - the kept iterator is the constructor\'s '
+                                  'provider.__aiter__(), made once' % (f.qualname.split(':')[-1], n.lineno, attr,
+                                                                       ast.unparse(v) if v is not None else '?'))
+        if ok and len(stores) != 1:
+            ok, why = False, 'self.%s is stored %d times' % (attr, len(stores))
+    rep.add('C17.i', 'RSocketClient._get_new_transport / one step of the iterator made once from the provider', g, ok,
+            why or 'self.%s = provider.__aiter__() in __init__ only; one __anext__() per connection, its value returned'
+            % attr)
+
+
+
+RULES = [('C17.a', rule_a), ('C17.b', rule_b), ('C17.c', rule_c), ('C17.d', rule_d), ('C17.e', rule_e), ('C17.f', rule_f), ('C17.b+C11.a+C11.g', rule_plumbing), ('C17.g', rule_g), ('C14.e', rule_lease_per_connection), ('C17.h', rule_stop_tasks_reentrant), ('C17.i', rule_provider_iterated_once)]
